@@ -1,7 +1,14 @@
 """C02 — every task gets exactly its clients; clients are partitioned over workers (DESIGN.md section 4, C02).
 
 Roles are located by data flow (which value reaches which constructor parameter / subscript / call), decisions are taken on representative VALUES: the expressions and
-small functions extracted from the source are evaluated by sa.minieval (plus the local helpers _ev / _run below) — nothing of the repository is imported or called."""
+small functions extracted from the source are evaluated by sa.minieval (plus the local helpers _ev / _run / _apply below, which follow calls into pure helper functions and
+methods of the analysed module) — nothing of the repository is imported or called.
+
+Two levels (hardening round 3): an obligation is decided on its LOCATED role in isolation (the extracted expression over representative inputs); where the role is not located,
+or is located in a shape that is not one of the enumerated ones, the obligation is decided END TO END on the facts read off the results of the analysed code for representative
+inputs (_Decider + _WaSim: calculate_worker_assignments evaluated by _run; _MatrixSim: the allocator interpreted by the abstract machine of rules.C01 on its model schedules).
+Only when that evaluation is impossible too the verdict is structural: falsified for a role that was located and is wrong, 'not recognised' (exit 2) for a role that was not
+located. A class without a hand-written constructor is read through the constructor its record decorator generates (_ctor: @dataclass / typing.NamedTuple fields)."""
 from __future__ import annotations
 
 import ast
@@ -327,10 +334,6 @@ def _call_value(func, env):
 
 
 # ---- constructors ----------------------------------------------------------------------------------------------------------------------------------------------
-def _deco_names(node):
-    return [(dotted(d.func if isinstance(d, ast.Call) else d) or "").split(".")[-1] for d in node.decorator_list]
-
-
 def _record_fields(mod, cls, seen=()):
     """[(field name, default expression or None)] in constructor order of a record class (@dataclass / typing.NamedTuple, fields of record base classes of the same module
     first), None if cls is not such a class; AnchorMissing for a generated signature this module does not model (init=False, keyword-only fields, unknown base class)."""
@@ -390,7 +393,7 @@ def _ctor(mod, cls, _seen=()):
     if fields is not None:
         if not fields:
             return None
-        sig = ", ".join(f if d is None else f"{f}=None" for f, d in fields)
+        sig = ", ".join(f if d is None else f"{f}={u(d)}" for f, d in fields)
         fn = ast.parse(f"def __init__(self, {sig}):\n" + "".join(f"    self.{f} = {f}\n" for f, _ in fields)).body[0]
         for x in ast.walk(fn):
             if hasattr(x, "lineno"):
@@ -470,11 +473,12 @@ class _Alloc:
         self.drv = drv
         b = self.b = _builder(drv)
         self.defs = local_defs(b)
+        self.funcs = _helpers_of(drv, b)  # (pure) helpers the extracted expressions may call: evaluated on the argument values
         ta_cls = drv.cls("TaskAllocation")
         ta_init = _ctor(drv, ta_cls)
         if ta_init is None or len(params_of(ta_init)) < 5:
             raise AnchorMissing("constructor of TaskAllocation (__init__ or record fields): (self, task, task-local index, element-wide index, total clients)")
-        self.ta_params = params_of(ta_init)[1:5]
+        self.ta_init, self.ta_params = ta_init, params_of(ta_init)[1:5]
         L = None
         for n in walk_body(b):
             if isinstance(n, ast.For) and any(isinstance(x, ast.Call) and last_attr(x.func) == "TaskAllocation" for x in ast.walk(n)):
@@ -542,7 +546,14 @@ class _Alloc:
 
     def arg(self, role):
         """argument of the TaskAllocation construction by constructor position: 'task' | 'local' | 'global' | 'total'"""
-        return self.bd.get(self.ta_params[("task", "local", "global", "total").index(role)])
+        p = self.ta_params[("task", "local", "global", "total").index(role)]
+        if p in self.bd:
+            return self.bd[p]
+        # not given at the construction: the parameter's default (None if it has none)
+        a = self.ta_init.args
+        pos = a.posonlyargs + a.args
+        dflt = dict(zip([x.arg for x in pos][len(pos) - len(a.defaults):], a.defaults))
+        return dflt.get(p)
 
     def defs_at(self, expr):
         """the definitions that may be inlined into expr: function-wide single-assignment locals, plus the client loop's own definitions for an expression inside its body"""
@@ -566,7 +577,8 @@ class _Alloc:
 
     def iterations(self, s, n, e, r, flags=(False, False)):
         """environments of the iterations of the client loop for a sub-task with n clients whose first element-wide index is s (element: e clients, matrix: r rows)"""
-        env = {self.svar: s, self.sub: me.Record(clients=n, completes_parent=flags[0], any_completes_parent=flags[1]), self.elem: me.Record(clients=e), "__rows__": r}
+        env = {self.svar: s, self.sub: me.Record(clients=n, completes_parent=flags[0], any_completes_parent=flags[1]), self.elem: me.Record(clients=e), "__rows__": r,
+               "__funcs__": self.funcs}
         args = [self.value(a, env) for a in self.CL.iter.args]
         if not all(isinstance(a, int) and not isinstance(a, bool) for a in args):
             raise me.CannotEval(f"{u(self.CL.iter)}: non-integer bounds")
@@ -590,6 +602,13 @@ class _Alloc:
 
 
 # ---- deciding on values end to end ------------------------------------------------------------------------------------------------------------------------------
+class _NotEvaluated:
+    """value of a fact that could not be evaluated (the other facts of the evaluation stand)"""
+
+    def __init__(self, why):
+        self.why = why
+
+
 class _Sim:
     """An end-to-end evaluation of analysed code on representative inputs (lazily, once): named facts of the property read off the RESULTS. _compute() returns
     {fact: None (holds on every input) | witness text}; CannotEval if the code cannot be evaluated."""
@@ -614,7 +633,9 @@ class _Sim:
                 self._f = f"{self.what} cannot be evaluated on representative {self.inputs}: `{x.kind}` outside a loop"
         if isinstance(self._f, str):
             return None, self._f
-        bad = [self._f[k] for k in facts if self._f[k] is not None]
+        bad = [self._f[k] for k in facts if isinstance(self._f[k], str)]
+        if not bad and any(isinstance(self._f[k], _NotEvaluated) for k in facts):
+            return None, next(self._f[k].why for k in facts if isinstance(self._f[k], _NotEvaluated))
         return (False, bad[0]) if bad else (True, f"{self.what} evaluated for {self.cases} representative {self.inputs}: {', '.join(facts)} hold{'s' if len(facts) == 1 else ''} on every result")
 
 
@@ -636,11 +657,12 @@ class _Decider:
                 return facts
         raise KeyError(f"{rid}: no facts declared for obligation `{name}`")
 
-    def ob(self, rid, name, ok, node, detail="", located=True, key=None):
+    def ob(self, rid, name, ok, node, detail="", located=True, key=None, definitive=False):
+        """definitive: `ok` was decided on the VALUES of the located role (a witness exists when it is False): stated as it is"""
         rid = self.rid or rid
         self.done.append((rid, name))
-        if ok:
-            return self.chk.ob(rid, name, True, node, detail, key=key)
+        if ok or definitive:
+            return self.chk.ob(rid, name, ok, node, detail, key=key)
         v, txt = self.sim.verdict(self._facts(rid, name))
         if v is None:
             if located:
@@ -671,11 +693,18 @@ class _Decider:
         if v is None:
             self.chk.unknown(self.table[0][0], f"not recognised: {exc}; {why}", node)
             return
-        stated = list(self.done)
-        for i, (rid, prefix, _, key) in enumerate(self.table):
+        stated, open_ = list(self.done), {}
+        for i, (rid, prefix, facts, key) in enumerate(self.table):
             # (a prefix listed k times stands for k obligations of that name)
             if sum(1 for r, n in stated if r == rid and n.startswith(prefix)) <= sum(1 for r, p, _, _ in self.table[:i] if (r, p) == (rid, prefix)):
-                self.ob(rid, prefix, False, node, f"not located: {exc}", located=False, key=key)
+                v, why = self.sim.verdict(facts)
+                if v is None:
+                    open_.setdefault((rid, why), []).append(prefix)  # this fact could not be evaluated: one line per rule and reason
+                else:
+                    self.ob(rid, prefix, False, node, f"not located: {exc}", located=False, key=key)
+        for (rid, why), names in open_.items():
+            self.done += [(rid, n) for n in names]
+            self.chk.unknown(rid, f"not recognised: {exc}; {why} (open: {'; '.join(names)})", node)
 
 
 class _MatrixSim(_Sim):
@@ -717,8 +746,15 @@ class _MatrixSim(_Sim):
         try:
             c01 = importlib.import_module("rules.C01")
             machine, schedules, is_prop, model = c01._Machine, c01._schedules(), c01._is_property, c01._Obj
+            T, P = c01._leaf, c01._par
+            # over-committed elements whose completing / any-completing sub-tasks lie beyond the first round (element-wide index >= row count: physical row != logical index)
+            schedules = list(schedules) + [
+                ("[par(2 + 1 completing + 1 any on 2 clients)]", [P("p", [T("a", 2), T("b", 1, completes=True), T("c", 1, any_=True)], clients=2)]),
+                ("[3, par(2 + 2 completing on 3 clients), 1]", [T("a", 3), P("p", [T("b", 2), T("c", 2, completes=True)], clients=3), T("d", 1)]),
+                ("[par(1 any + 3 + 2 any on 4 clients), 4]", [P("p", [T("a", 1, any_=True), T("b", 3), T("c", 2, any_=True)], clients=4), T("d", 4)]),
+            ]
             soft = (c01._Cannot, c01._Raised, RecursionError)
-        except (ImportError, AttributeError, SyntaxError, TypeError) as x:
+        except Exception as x:  # noqa: BLE001 — rules/C01.py is owned (and changed) elsewhere: whatever keeps it from loading makes this evaluation unavailable, not the check fail
             raise me.CannotEval(f"the abstract machine of rules.C01 is not available ({type(x).__name__}: {x})")
         drv = self.drv
         JP, TA = drv.cls("JoinPoint"), drv.cls("TaskAllocation")
@@ -738,20 +774,30 @@ class _MatrixSim(_Sim):
         def fail(k, txt):
             if f[k] is None:
                 f[k] = txt
+                if k == "aligned":
+                    # the facts about what lies between two join points are read off aligned matrices only: a ragged matrix leaves none of them standing
+                    for k2 in ("rows", "tiling", "local", "total", "task", "announce", "elem_rows", "elem_rounds"):
+                        f[k2] = f[k2] or txt
 
         def is_a(v, cls):
-            return isinstance(v, model) and v.cls is cls
+            return isinstance(v, model) and v.cls is cls and isinstance(getattr(v, "init_args", None), dict)
 
         def read(m, obj, fn):
             return m.getattr(obj, fn.name) if is_prop(fn) else m.apply(m.getattr(obj, fn.name), [], {})
 
         for name, sched in schedules:
+            E = None
             try:
                 m = machine(drv)
                 alloc = m.new(A, [list(sched)])
                 M = read(m, alloc, b)
-                E = read(m, alloc, tp) if tp is not None else None
                 leaves_of = [list(m._iter(el, None)) for el in sched]
+                if tp is not None and not isinstance(f["entries"], _NotEvaluated):
+                    try:
+                        E = read(m, alloc, tp)
+                    except soft as x:
+                        # the entries cannot be computed from this matrix (e.g. a ragged one): only the fact about the entries is left open
+                        f["entries"] = _NotEvaluated(f"the per-step entries cannot be evaluated: schedule {name}: {type(x).__name__.strip('_')}: {x}")
             except soft as x:
                 raise me.CannotEval(f"schedule {name}: {type(x).__name__.strip('_')}: {x}")
             except (AttributeError, TypeError) as x:  # the machine of rules.C01 is owned (and changed) elsewhere: an interface that moved is 'not available', not a crash
@@ -764,7 +810,7 @@ class _MatrixSim(_Sim):
             if len({id(r) for r in M}) != R:
                 fail("own_rows", f"{where}: the {R} rows are {len({id(r) for r in M})} list object(s)")
             jpos = [[i for i, e in enumerate(r) if is_a(e, JP)] for r in rows]
-            if E is not None:
+            if E is not None and not isinstance(f["entries"], _NotEvaluated):
                 want = [sorted(id(lf) for lf in leaves if lf.fields["clients"] > 0) for leaves in leaves_of]
                 got = [sorted(id(x) for x in s_) for s_ in E] if isinstance(E, (list, tuple)) and all(isinstance(s_, (set, frozenset, list, tuple)) for s_ in E) else None
                 if got != want:
@@ -820,7 +866,7 @@ class _MatrixSim(_Sim):
                     if got != want:
                         fail("announce", f"{ew}: the join point behind it carries {got} as `{p}`, the rows of its {flag} sub-tasks are {want}")
         if not rows_r and not rows_e:
-            f["rows"] = rows_w
+            f["rows"] = f["rows"] or rows_w
         return f
 
 
@@ -1146,19 +1192,35 @@ def client_floor_rule(chk, rid, drv):
     if clf is None:
         raise AnchorMissing("Allocator.clients")
     # the schedule attribute: the self attribute the property reads (the one the builder iterates, if the property reads several)
-    attrs = sorted({n.attr for n in walk_body(clf) if is_self_attr(n) and isinstance(n.ctx, ast.Load)})
+    meths = drv.methods(AL2)
+    # the schedule attribute: the self attribute the property (with the helper methods it delegates to) reads; if it reads several: the one the constructor keeps its
+    # parameter in / the builder iterates
+    todo, seen = [clf], []
+    while todo:
+        f_ = todo.pop()
+        if any(f_ is x for x in seen):
+            continue
+        seen.append(f_)
+        todo += [meths[c.func.attr] for c in walk_body(f_) if isinstance(c, ast.Call) and is_self_attr(c.func) and c.func.attr in meths]
+    attrs = sorted({n.attr for f_ in seen for n in walk_body(f_) if is_self_attr(n) and isinstance(n.ctx, ast.Load) and n.attr not in meths})
     if len(attrs) != 1:
+        ini = _ctor(drv, AL2)
+        kept = [n.targets[0].attr for n in walk_body(ini) if isinstance(n, ast.Assign) and len(n.targets) == 1 and is_self_attr(n.targets[0]) and len(params_of(ini)) == 2
+                and u(n.value) == params_of(ini)[1]] if ini is not None else []
         try:
-            sched = _Alloc(drv).sched_attr
+            kept.append(_Alloc(drv).sched_attr)
         except AnchorMissing:
-            sched = None
-        if sched not in attrs:
+            pass
+        sched = next((k_ for k_ in kept if k_ in attrs), None)
+        if sched is None:
             raise AnchorMissing(f"the schedule attribute read by Allocator.clients (reads {attrs})")
         attrs = [sched]
     sched = attrs[0]
 
+    helpers = _helpers_of(drv, clf)  # helper methods / functions the property delegates to are evaluated with it
+
     def rows(counts):
-        return _call_value(clf, {"self": me.Record(**{sched: [me.Record(clients=c) for c in counts]})})
+        return _call_value(clf, {"self": me.Record(**{sched: [me.Record(clients=c) for c in counts]}), "__funcs__": helpers})
 
     wide = [[2, 5, 3], [5, 2], [3], [0, 4], [1, 1, 7], [2, 2], [6, 0, 1]]
     empty = [[], [0], [0, 0]]
@@ -1183,57 +1245,72 @@ def _case_txt(case):
     return f"sub-task with {n} client(s) starting at element-wide index {s}, element with {e} client(s), {r} row(s)"
 
 
+_TOTALS_OBS = [
+    (None, "allocation: total clients == the schedule element's client count", ("total",), f"{_D}:Allocator.allocations:total-clients"),
+    (None, "allocation: global client index == the element-wide client index", ("tiling",), f"{_D}:Allocator.allocations:global-index"),
+    (None, "allocation: task-local client index == element-wide index minus the index of the sub-task's first client", ("local", "tiling"), f"{_D}:Allocator.allocations:task-local-index"),
+]
+
+
 def allocation_totals(chk, rid, drv):
     """TaskAllocation(task, task-local index, element-wide index, total clients) in the allocation builder: the values the ramp-up slot of a client and the partition of the
     parameter source are computed from (shared with C03 / C05). Arguments are taken by constructor position and evaluated over the iterations of the client loop for
-    representative (offset, sub-task clients, element clients, row count)."""
+    representative (offset, sub-task clients, element clients, row count); where the roles of the builder are not located (or an argument cannot be evaluated in isolation)
+    the same facts are read off the matrices the allocator yields for representative schedules."""
+    D = _Decider(chk, _matrix_sim(drv), _TOTALS_OBS, rid=rid)
+    try:
+        _allocation_totals_roles(D, rid, drv)
+    except AnchorMissing as x:
+        D.rest(x, drv.cls("Allocator"))
+
+
+def _allocation_totals_roles(D, rid, drv):
     A = _Alloc(drv)
     tot, gl, loc = A.arg("total"), A.arg("global"), A.arg("local")
     if tot is None or gl is None or loc is None:
         raise AnchorMissing("arguments of TaskAllocation(...) in the allocation builder")
+    (n_t, _, _, k_t), (n_g, _, _, k_g), (n_l, _, _, k_l) = _TOTALS_OBS
     try:
         ok_t, w_t = A.holds_all(lambda c: all(v == c[2] for v in A.series(tot, c)))
         ok_g, w_g = A.holds_all(lambda c: A.series(gl, c) == list(range(c[0], c[0] + c[1])))
         ok_l, w_l = A.holds_all(lambda c: A.series(loc, c) == list(range(c[1])))
     except me.CannotEval as x:
-        chk.unknown(rid, f"arguments of `{short(A.tac, 60)}` cannot be evaluated over the client loop ({x})", A.tac)
-        return
-    chk.ob(rid, "allocation: total clients == the schedule element's client count", ok_t, A.tac, f"total clients = {inline(tot, A.defs_at(tot))}" + ("" if ok_t else f": {A.series(tot, w_t)} for a {_case_txt(w_t)}"),
-           key="esrally/driver/driver.py:Allocator.allocations:total-clients")
-    chk.ob(rid, "allocation: global client index == the element-wide client index", ok_g, A.tac,
-           f"element-wide index = {inline(gl, A.defs_at(gl))}" + ("" if ok_g else f": {A.series(gl, w_g)} for a {_case_txt(w_g)}"), key="esrally/driver/driver.py:Allocator.allocations:global-index")
+        raise AnchorMissing(f"arguments of `{short(A.tac, 60)}` cannot be evaluated over the client loop ({x})")
+    D.ob(rid, n_t, ok_t, A.tac, f"total clients = {inline(tot, A.defs_at(tot))}" + ("" if ok_t else f": {A.series(tot, w_t)} for a {_case_txt(w_t)}"), key=k_t, definitive=True)
+    D.ob(rid, n_g, ok_g, A.tac, f"element-wide index = {inline(gl, A.defs_at(gl))}" + ("" if ok_g else f": {A.series(gl, w_g)} for a {_case_txt(w_g)}"), key=k_g, definitive=True)
     # task-local index == i - s where s is the element-wide index of the sub-task's first client (advanced by the sub-task's client count): contiguous 0..k-1 per sub-task,
     # which is what the partitioning of co-located clients relies on (a modulo hands out a rotated range)
-    adv_ok, adv_detail = _offset_advance(A)
+    adv_ok, adv_detail, adv_definitive = _offset_advance(A)
     if adv_ok is None:
-        chk.unknown(rid, adv_detail, A.SL)
+        D.unknown(rid, n_l, adv_detail, A.SL, key=k_l)
         return
-    ok = ok_l and adv_ok and _offset_init(A) is not None
-    chk.ob(rid, "allocation: task-local client index == element-wide index minus the index of the sub-task's first client", ok, A.tac,
-           f"task-local index = {inline(loc, A.defs_at(loc))}" + ("" if ok_l else f": {A.series(loc, w_l)} for a {_case_txt(w_l)}") + ("" if adv_ok else f"; {adv_detail}")
-           + ("" if _offset_init(A) is not None else f"; `{A.svar}` does not start at 0 for each element"), key="esrally/driver/driver.py:Allocator.allocations:task-local-index")
+    ini = _offset_init(A)
+    ok = ok_l and adv_ok and ini is not None
+    D.ob(rid, n_l, ok, A.tac, f"task-local index = {inline(loc, A.defs_at(loc))}" + ("" if ok_l else f": {A.series(loc, w_l)} for a {_case_txt(w_l)}") + ("" if adv_ok else f"; {adv_detail}")
+         + ("" if ini is not None else f"; `{A.svar}` does not start at 0 for each element"), key=k_l, definitive=not ok_l or (not adv_ok and adv_definitive))
 
 
 def _offset_advance(A):
-    """(ok, detail): the running offset is advanced exactly once per sub-task, after the client loop, by the sub-task's client count (on values). ok None: not recognised."""
+    """(ok, detail, definitive): the running offset is advanced exactly once per sub-task, after the client loop, by the sub-task's client count (on values). ok None: the
+    amount cannot be evaluated; definitive: ok False was decided on the VALUE of the amount (not on the shape / position of the statement)."""
     adv = A.advances
     if len(adv) != 1 or not isinstance(adv[0].op, ast.Add):
-        return False, f"`{A.svar}` is advanced by {[short(n, 40) for n in adv]} in the sub-task loop"
+        return False, f"`{A.svar}` is advanced by {[short(n, 40) for n in adv]} in the sub-task loop", False
     blk = flat(A.SL.body)
     top = next((st for st in blk if any(x is A.CL for x in ast.walk(st))), None)
     if not any(adv[0] is st for st in blk) or top is None:
-        return False, f"`{short(adv[0], 40)}` is not a statement of the sub-task loop's own block (once per sub-task)"
+        return False, f"`{short(adv[0], 40)}` is not a statement of the sub-task loop's own block (once per sub-task)", False
     if [i for i, st in enumerate(blk) if st is adv[0]][0] < [i for i, st in enumerate(blk) if st is top][0]:
-        return False, f"`{short(adv[0], 40)}` precedes the client loop"
+        return False, f"`{short(adv[0], 40)}` precedes the client loop", False
     try:
         for s, n, e, r in _CASES:
-            env = {A.svar: s, A.sub: me.Record(clients=n), A.elem: me.Record(clients=e), "__rows__": r}
+            env = {A.svar: s, A.sub: me.Record(clients=n), A.elem: me.Record(clients=e), "__rows__": r, "__funcs__": A.funcs}
             v = A.value(adv[0].value, env)
             if v != n:
-                return False, f"`{short(adv[0], 50)}` advances the offset by {v} for a {_case_txt((s, n, e, r))}"
+                return False, f"`{short(adv[0], 50)}` advances the offset by {v} for a {_case_txt((s, n, e, r))}", True
     except me.CannotEval as x:
-        return None, f"the amount `{u(adv[0].value)}` the client offset is advanced by cannot be evaluated ({x})"
-    return True, short(adv[0], 50)
+        return None, f"the amount `{u(adv[0].value)}` the client offset is advanced by cannot be evaluated ({x})", False
+    return True, short(adv[0], 50), True
 
 
 def _offset_init(A):
@@ -1272,27 +1349,38 @@ def _joinpoint_lists(A):
     raise AnchorMissing("JoinPoint(id, completing clients, any-completing clients) in the per-element loop of the allocation builder")
 
 
+_FRESH_OBS = [
+    (None, "join-point client list", ("announce",), f"{_D}:Allocator.allocations:fresh-list:0"),
+    (None, "join-point client list", ("announce",), f"{_D}:Allocator.allocations:fresh-list:1"),
+]
+
+
 def joinpoint_lists_reset(chk, rid, drv):
     """The two client lists handed to a schedule element's closing JoinPoint (clients of the completing task / of `any` tasks) are fresh empty lists per element:
-    a list created outside the per-element loop makes every later join point inherit an earlier element's completing clients (shared with C01)."""
-    A = _Alloc(drv)
-    jp, lists = _joinpoint_lists(A)
+    a list created outside the per-element loop makes every later join point inherit an earlier element's completing clients (shared with C01). Where the lists are not
+    locals re-created in the per-element block, the fact is read off the matrices of representative schedules (what each join point carries)."""
+    D = _Decider(chk, _matrix_sim(drv), _FRESH_OBS, rid=rid)
+    try:
+        A = _Alloc(drv)
+        jp, lists = _joinpoint_lists(A)
+    except AnchorMissing as x:
+        D.rest(x, drv.cls("Allocator"))
+        return
     blk = flat(A.L.body)
     top = next((i for i, st in enumerate(blk) if any(x is A.SL for x in ast.walk(st))), len(blk))
     for k, a in enumerate(lists):
         lst = u(a)
+        name, key = f"join-point client list `{lst}` starts empty for each schedule element", f"{_D}:Allocator.allocations:fresh-list:{k}"
         if not isinstance(a, ast.Name):
-            chk.unknown(rid, f"join-point client list `{lst}` is not a local of the builder", jp)
+            D.unknown(rid, name, f"join-point client list `{lst}` is not a local of the builder", jp, key=key)
             continue
         writes = [(st, v) for st in walk_body(A.b) if isinstance(st, ast.Assign) for t, v in _assign_pairs(st) if isinstance(t, ast.Name) and t.id == lst]
         if not writes:
-            chk.unknown(rid, f"no assignment to the join-point client list `{lst}` in the builder", jp)
+            D.unknown(rid, name, f"no assignment to the join-point client list `{lst}` in the builder", jp, key=key)
             continue
         ini = [st for st, v in writes if _is_fresh_list(v) and any(st is x for x in blk[:top])]
         ok = len(ini) == 1
-        chk.ob(rid, f"join-point client list `{lst}` starts empty for each schedule element", ok, ini[0] if ini else writes[0][0],
-               "" if ok else "not re-created inside the per-element loop: later join points inherit the completing clients of an earlier element",
-               key=f"esrally/driver/driver.py:Allocator.allocations:fresh-list:{k}")
+        D.ob(rid, name, ok, ini[0] if ini else writes[0][0], "" if ok else "not re-created inside the per-element loop: later join points inherit the completing clients of an earlier element", key=key)
 
 
 # representative (element's client count e, row count R) pairs: the row count is the maximum over all elements (O2.7), so only e <= R occurs; e >= 1 inside the client loop
@@ -1499,7 +1587,7 @@ def _worker_partition_roles(D, drv, wa, hosts_p, count_p, wdefs, wfuncs):
     name = "ids from range(c, c + k)"
     try:
         bad = next(((c, k) for c, k in ck_cases if ck(c1, c, k) != c + k), None)
-        D.ob("O2.4", name, bad is None, IL, u(rng) + ("" if bad is None else f": with {cvar} = {bad[0]} and a worker with {bad[1]} client(s) the ids end before {ck(c1, *bad)} instead of {bad[0] + bad[1]}"))
+        D.ob("O2.4", name, bad is None, IL, u(rng) + ("" if bad is None else f": with {cvar} = {bad[0]} and a worker with {bad[1]} client(s) the ids end before {ck(c1, *bad)} instead of {bad[0] + bad[1]}"), definitive=True)
     except me.CannotEval as x:
         D.unknown("O2.4", name, f"upper bound of the client ids `{u(rng)}` cannot be evaluated from the id counter and the worker's client count `{kname}` ({x})", IL)
     # the counter moves on by k: the statement(s) of the worker loop (outside the id site) that write it
@@ -1515,7 +1603,7 @@ def _worker_partition_roles(D, drv, wa, hosts_p, count_p, wdefs, wfuncs):
                 bad = next(((c, k) for c, k in ck_cases if ck(adv[0].value, c, k) != k), None)
             else:
                 bad = next(((c, k) for c, k in ck_cases if ck(adv[0].value, c, k) != c + k), None)
-            D.ob("O2.4", name, bad is None, adv[0], short(adv[0], 50) + ("" if bad is None else f": after a worker with {bad[1]} client(s) the counter does not move on by {bad[1]}"))
+            D.ob("O2.4", name, bad is None, adv[0], short(adv[0], 50) + ("" if bad is None else f": after a worker with {bad[1]} client(s) the counter does not move on by {bad[1]}"), definitive=True)
         except me.CannotEval as x:
             D.unknown("O2.4", name, f"`{short(adv[0], 50)}` cannot be evaluated from the id counter and the worker's client count ({x})", adv[0])
     elif adv:
@@ -1590,7 +1678,7 @@ def _worker_partition_roles(D, drv, wa, hosts_p, count_p, wdefs, wfuncs):
         else:
             try:
                 bad = next((t for t in host_values(slots) if t[1] != t[3]), None)
-                D.ob("O2.4", SLOTS, bad is None, slots, f"slots = {inline(slots, alld)}" + ("" if bad is None else f" = {bad[1]} for {bad[0]}"))
+                D.ob("O2.4", SLOTS, bad is None, slots, f"slots = {inline(slots, alld)}" + ("" if bad is None else f" = {bad[1]} for {bad[0]}"), definitive=True)
             except me.CannotEval as x:
                 D.unknown("O2.4", SLOTS, f"worker slots `{u(slots)}` cannot be evaluated for representative hosts ({x})", slots)
             if cd is None:
@@ -1599,7 +1687,7 @@ def _worker_partition_roles(D, drv, wa, hosts_p, count_p, wdefs, wfuncs):
                 # the counters start as one 0 per slot: on values
                 try:
                     bad = next((t for t in host_values(cd) if t[1] != [0] * t[3]), None)
-                    D.ob("O2.4", ONE, bad is None, cd, short(cd, 60) + ("" if bad is None else f" = {bad[1]} for {bad[0]}"))
+                    D.ob("O2.4", ONE, bad is None, cd, short(cd, 60) + ("" if bad is None else f" = {bad[1]} for {bad[0]}"), definitive=True)
                 except me.CannotEval as x:
                     D.unknown("O2.4", ONE, f"initial per-worker counts `{short(cd, 50)}` cannot be evaluated for representative hosts ({x})", cd)
     else:
@@ -1609,11 +1697,14 @@ def _worker_partition_roles(D, drv, wa, hosts_p, count_p, wdefs, wfuncs):
             raise AnchorMissing(f"per-worker client counts `{cpw}`: neither `{cpw}[i % slots] += 1` nor a definition inside the host loop")
         try:
             vals = host_values(cd)
-            bad = next((t for t in vals if not isinstance(t[1], list) or t[1] != _round_robin(t[2], t[3])), None)
+            # (what the property asks of the counts: all of the host's share is dealt out and the worker loads differ by at most one — dealt round-robin, whichever workers
+            # take the extra client)
+            bad = next((t for t in vals if not isinstance(t[1], list) or any(isinstance(v, bool) or not isinstance(v, int) or v < 0 for v in t[1]) or sum(t[1]) != t[2]
+                        or (t[1] and max(t[1]) - min(t[1]) > 1)), None)
             bad_len = next((t for t in vals if not isinstance(t[1], list) or len(t[1]) != t[3]), None)
-            D.ob("O2.4", RR, bad is None, cd, f"{short(cd, 60)}" + ("" if bad is None else f" = {bad[1]} for {bad[0]} (share {bad[2]}): expected {_round_robin(bad[2], bad[3])}"))
-            D.ob("O2.4", SLOTS, bad_len is None, cd, "" if bad_len is None else f"{bad_len[1]} for {bad_len[0]}")
-            D.ob("O2.4", ONE, bad_len is None, cd, "" if bad_len is None else f"{bad_len[1]} for {bad_len[0]}")
+            D.ob("O2.4", RR, bad is None, cd, f"{short(cd, 60)}" + ("" if bad is None else f" = {bad[1]} for {bad[0]} (share {bad[2]}): expected e.g. {_round_robin(bad[2], bad[3])}"), definitive=True)
+            D.ob("O2.4", SLOTS, bad_len is None, cd, "" if bad_len is None else f"{bad_len[1]} for {bad_len[0]}", definitive=True)
+            D.ob("O2.4", ONE, bad_len is None, cd, "" if bad_len is None else f"{bad_len[1]} for {bad_len[0]}", definitive=True)
         except me.CannotEval as x:
             for name in (RR, SLOTS, ONE):
                 D.unknown("O2.4", name, f"per-worker client counts `{short(cd, 50)}` cannot be evaluated for representative hosts ({x})", cd)
@@ -1627,7 +1718,7 @@ def _worker_partition_roles(D, drv, wa, hosts_p, count_p, wdefs, wfuncs):
         share_e = share if share is not None else dec.value
         try:
             bad = next((t for t in host_values(share_e) if t[1] != t[2]), None)
-            D.ob("O2.4", SH, bad is None, hdefs.get(u(share_e), share_e), f"share = {inline(share_e, alld)}" + ("" if bad is None else f" = {bad[1]} for {bad[0]}: expected {bad[2]}"))
+            D.ob("O2.4", SH, bad is None, hdefs.get(u(share_e), share_e), f"share = {inline(share_e, alld)}" + ("" if bad is None else f" = {bad[1]} for {bad[0]}: expected {bad[2]}"), definitive=True)
         except me.CannotEval as x:
             D.unknown("O2.4", SH, f"per-host share `{inline(share_e, alld)}` cannot be evaluated for representative hosts ({x})", share_e)
         ok = inline(dec.value, alld) == inline(share_e, alld)
@@ -1712,7 +1803,7 @@ def _matrix_roles(M, drv):
         rows_ok = rows_ok and ok
         row_mods.append((a, d if is_mod else None, d))
         M.ob("O2.2", f"row subscript of `{short(a, 50)}`", ok, a, f"index `{u(idx)}` = `{u(d) if d is not None else '?'}`; row count = {rc_text}"
-             + ("" if ok else " — not reduced modulo the row count (nor modulo the element's own client count)"), located=is_mod or on_values is False)
+             + ("" if ok else " — not reduced modulo the row count (nor modulo the element's own client count)"), located=is_mod, definitive=on_values is False)
     if n_checked == 0:
         raise AnchorMissing(f"append of the task allocation to a row `{matrix}[<row>]` inside the client loop")
     M.ob("O2.2", "row subscripts located", n_checked >= 1, L, f"{n_checked} non-broadcast row subscript(s)")
@@ -1760,15 +1851,15 @@ def _matrix_roles(M, drv):
     try:
         ok, w = A.holds_all(lambda c: len(A.iterations(*c)) == c[1] and all(A.series(dv, c) == list(range(c[0], c[0] + c[1])) for dv in dividends))
         detail = u(CL.iter) + ("" if ok else f": {len(A.iterations(*w))} iteration(s), row dividend(s) {[A.series(dv, w) for dv in dividends]} for a {_case_txt(w)}")
-        M.ob("O2.3", NAME, ok, CL, detail)
+        M.ob("O2.3", NAME, ok, CL, detail, definitive=True)
     except me.CannotEval as x:
         M.unknown("O2.3", NAME, f"client loop `{u(CL.iter)}` cannot be evaluated on representative values ({x})", CL)
     NAME = "s += sub_task.clients after the client loop (same count)"
-    adv_ok, adv_detail = _offset_advance(A)
+    adv_ok, adv_detail, adv_definitive = _offset_advance(A)
     if adv_ok is None:
         M.unknown("O2.3", NAME, adv_detail, SL)
     else:
-        M.ob("O2.3", NAME, adv_ok, A.advances[0] if A.advances else SL, adv_detail)
+        M.ob("O2.3", NAME, adv_ok, A.advances[0] if A.advances else SL, adv_detail, definitive=adv_definitive)
     ini = _offset_init(A)
     M.ob("O2.3", "s starts at 0 for each schedule element", ini is not None, ini if ini is not None else L, "" if ini is not None else f"no `{svar} = 0` in the per-element block before the sub-task loop",
          located=False)
@@ -1784,7 +1875,7 @@ def _matrix_roles(M, drv):
             ("total clients == the element's client count", lambda c: all(v == c[2] for v in A.series(tot, c)), tot, lambda w: f" = {A.series(tot, w)} for a {_case_txt(w)}")):
         try:
             ok, w = A.holds_all(pred)
-            M.ob("O2.3", NAME, ok, A.tac, u(expr) + ("" if ok else txt(w)))
+            M.ob("O2.3", NAME, ok, A.tac, u(expr) + ("" if ok else txt(w)), definitive=True)
         except me.CannotEval as x:
             M.unknown("O2.3", NAME, f"argument `{short(expr, 50)}` of `{short(A.tac, 50)}` cannot be evaluated over the client loop ({x})", A.tac)
     other_s = [n for n in ast.walk(SL) if isinstance(n, (ast.Assign, ast.AugAssign)) and any(isinstance(x, ast.Name) and x.id == svar for t in (n.targets if isinstance(n, ast.Assign) else [n.target]) for x in ast.walk(t))
@@ -1819,7 +1910,7 @@ def _matrix_roles(M, drv):
                 want = (1 if cp else 0) if k == 0 else (None if (cp and acp) else (1 if acp else 0))
                 if want is not None and hit != want:
                     problems.append(f"`{u(jlists[k])}` gets {hit} entr{'y' if hit == 1 else 'ies'} per client of a sub-task with completes_parent={cp}, any_completes_parent={acp} (expected {want})")
-        M.ob("O2.7", NAME, not problems, recs[0][0], "; ".join(problems[:2]) or f"{[u(x) for x in jlists]}")
+        M.ob("O2.7", NAME, not problems, recs[0][0], "; ".join(problems[:2]) or f"{[u(x) for x in jlists]}", definitive=True)
     except me.CannotEval as x:
         M.unknown("O2.7", NAME, f"recording of the completing clients cannot be evaluated on representative values ({x})", recs[0][0])
 
@@ -1879,7 +1970,9 @@ def run(chk):
         "representative (element clients, row count) values, whether that modulus and the padding bound are the element's own client count (O2.8, client cap of a parallel element); per-task "
         "client ranges telescope (the client loop evaluated for representative offsets / client counts: element-wide indices s..s+n-1, task-local 0..n-1, offset advanced by n); worker "
         "partition tiles 0..n-1 contiguously (range(c, c+k), c += k), per-host share = min(ceil(n/hosts), remaining) evaluated over a simulated host loop, with remaining decreased by "
-        "the same amount, round-robin per core; worker ids are list positions; a parallel element's client count is computed on demand from its current sub-tasks (evaluated)."
+        "the same amount, round-robin per core; worker ids are list positions; a parallel element's client count is computed on demand from its current sub-tasks (evaluated). "
+        "Roles that are not located (or have a shape that is not enumerated) are decided end to end: the worker assignment function and the allocator (matrix builder, per-step "
+        "entries, constructors of the cell classes) are evaluated for representative hosts / schedules and the same facts are read off the results."
     )
     chk.not_decided = "rectangularity of the matrix for all shapes (None-padding arithmetic), the per-host ceil split summing to the total for all inputs (guarded by a run-time assert), balance across hosts."
     step_entry_agreement(chk, drv, "O2.1")
@@ -1949,10 +2042,14 @@ def run(chk):
     # each client is recorded under the worker id: the dict attribute keyed by the client of the client loop
     cl_loops = [n for n in walk_body(sb) if isinstance(n, ast.For) and isinstance(n.target, ast.Name) and any(x is incs[0] for x in ast.walk(logical_parent(n)))
                 and any(isinstance(x, ast.Call) and last_attr(x.func) == "add" for x in ast.walk(n))]
-    al = [x for n in cl_loops for x in ast.walk(n) if isinstance(x, ast.Call) and last_attr(x.func) == "add" and len(x.args) == 2 and u(x.args[0]) == n.target.id]
+    def add_args(x):
+        # the two arguments of `<client allocations>.add(...)`, given by position or by keyword
+        return list(x.args) + [k.value for k in x.keywords if k.arg is not None]
+
+    al = [x for n in cl_loops for x in ast.walk(n) if isinstance(x, ast.Call) and last_attr(x.func) == "add" and len(add_args(x)) == 2 and any(u(a_) == n.target.id for a_ in add_args(x))]
     if not al:
         raise AnchorMissing("`<client allocations>.add(<client>, <row>)` in the client loop of start_benchmark")
-    clv = u(al[0].args[0])
+    clv = next(a_.id for a_ in add_args(al[0]) if isinstance(a_, ast.Name) and any(n.target.id == a_.id for n in cl_loops))
     # `self.<dict>[<client>] = <a counter>` in the client loop (by name as a fall-back, so that a wrong value is reported and not just 'not found')
     in_loop = [n for n in ast.walk(source.enclosing(al[0], ast.For)) if isinstance(n, ast.Assign) and len(n.targets) == 1 and isinstance(n.targets[0], ast.Subscript) and is_self_attr(n.targets[0].value)]
     cpw_ = [n for n in in_loop if u(n.targets[0].slice) == clv and isinstance(n.value, ast.Name) and n.value.id in counters] or [n for n in in_loop if n.targets[0].value.attr == "clients_per_worker"]
@@ -1966,9 +2063,12 @@ def run(chk):
     except AnchorMissing:
         bname = None  # (the builder delegates the constructions to helpers: the row argument is then only required to be a subscript by the client)
     mattr = {t.attr for n in walk_body(sb) if isinstance(n, ast.Assign) and isinstance(n.value, ast.Attribute) and n.value.attr == bname for t in n.targets if is_self_attr(t)}
-    row = al[0].args[1]
-    ok = isinstance(row, ast.Subscript) and u(row.slice) == clv and (not mattr or (is_self_attr(row.value) and row.value.attr in mattr))
-    chk.ob("O2.5", "each client gets its own matrix row", ok, al[0], short(al[0], 70))
+    row = inline_node(next(a_ for a_ in add_args(al[0])[::-1] if u(a_) != clv), local_defs(sb))  # (`row = self.allocations[client]; ....add(client, row)`)
+    if not isinstance(row, ast.Subscript):
+        chk.unknown("O2.5", f"`{short(al[0], 60)}`: the row handed over for the client is not a subscript of the matrix", al[0])
+    else:
+        ok = u(inline_node(row.slice, local_defs(sb))) == clv and (not mattr or (is_self_attr(row.value) and row.value.attr in mattr))
+        chk.ob("O2.5", "each client gets its own matrix row", ok, al[0], short(al[0], 70))
 
     # ---- O2.6 parallel client count --------------------------------------------------------------------------------------------------------------------
     chk.rule("O2.6", "a parallel element's client count is the explicit value when not None, else the sum over its CURRENT sub-tasks (computed on demand, not cached at construction)", 2,
@@ -2003,7 +2103,7 @@ def run(chk):
             raise me.CannotEval("no attribute of Parallel holds the list of sub-tasks given to the constructor")
         for k_ in live:
             fields[k_] = [me.Record(clients=c) for c in counts]
-        return _call_value(pc, {"self": me.Record(**fields)})
+        return _call_value(pc, {"self": me.Record(**fields), "__funcs__": _helpers_of(trk, pc)})
 
     try:
         cases = [((None, [1, 2]), 3), ((None, []), 0), ((2, [1, 2, 3]), 2), ((0, [1]), 0), ((5, [1]), 5)]
@@ -2130,4 +2230,101 @@ VARIANTS = [
     V("h2 keep: worker id handed over by keyword, extra counter in start_benchmark", "keep", _D,
       "                    worker = self.driver_actor.create_client(host, self.config, worker_id)\n",
       "                    started = 0\n                    started += 1\n                    worker = self.driver_actor.create_client(host, self.config, worker_id=worker_id)\n"),
+]
+
+# ---- hardening round 3 ------------------------------------------------------------------------------------------------------------------------------------------
+_WA_HEAD = "def calculate_worker_assignments(host_configs, client_count):\n"
+_RR_OLD = ("        workers_on_this_host = host_config[\"cores\"]\n        clients_per_worker = [0] * workers_on_this_host\n\n"
+           "        # determine how many clients each worker should simulate\n        for c in range(clients_on_this_host):\n"
+           "            clients_per_worker[c % workers_on_this_host] += 1\n")
+_SPREAD_CALL = "        clients_per_worker = _spread_evenly(clients_on_this_host, host_config[\"cores\"])\n"
+_SPREAD = ("def _spread_evenly(total, buckets):\n    if total == 0:\n        return [0] * buckets\n    per_bucket, leftover = divmod(total, buckets)\n"
+           "    return [per_bucket + 1] * leftover + [per_bucket] * (buckets - leftover)\n\n\n")
+_COUNT_LOOP = "def _spread_evenly(total, buckets):\n    counts = [0] * buckets\n    for c in range(total):\n        counts[c % buckets] += 1\n    return counts\n\n\n"
+_IDS_ADV = _IDS_OLD + "            client_idx += client_count_for_worker\n"
+_IDS_WHILE = ("            worker_assignment = []\n            assignment[\"workers\"].append(worker_assignment)\n            end = client_idx + client_count_for_worker\n"
+              "            while client_idx < end:\n                worker_assignment.append(client_idx)\n                client_idx += 1\n")
+_TA_INIT_OLD = ("class TaskAllocation:\n    def __init__(self, task, client_index_in_task, global_client_index, total_clients):\n        \"\"\"\n\n"
+                "        :param task: The current task which is always a leaf task.\n        :param client_index_in_task: The task-specific index for the allocated client.\n"
+                "        :param global_client_index:  The globally unique index for the allocated client across\n                                     all concurrently executed tasks.\n"
+                "        :param total_clients: The total number of clients executing tasks concurrently.\n        \"\"\"\n        self.task = task\n"
+                "        self.client_index_in_task = client_index_in_task\n        self.global_client_index = global_client_index\n        self.total_clients = total_clients\n")
+_TA_RECORD = ("@dataclass(eq=False, repr=False)\nclass TaskAllocation:\n    task: track.Task\n    client_index_in_task: int\n    global_client_index: int\n    total_clients: int\n")
+_CL_BLOCK = ("                for client_index in range(start_client_index, start_client_index + sub_task.clients):\n"
+             "                    # this is the actual client that will execute the task. It may differ from the logical one in case we over-commit (i.e.\n"
+             "                    # more tasks than actually available clients)\n"
+             "                    physical_client_index = client_index % max_clients\n                    if sub_task.completes_parent:\n"
+             "                        clients_executing_completing_task.append(physical_client_index)\n                    elif sub_task.any_completes_parent:\n"
+             "                        any_task_completes_parent.append(physical_client_index)\n\n                    ta = TaskAllocation(\n                        task=sub_task,\n"
+             "                        client_index_in_task=client_index - start_client_index,\n                        global_client_index=client_index,\n"
+             "                        # if task represents a parallel structure this is the total number of clients\n                        # executing sub-tasks concurrently.\n"
+             "                        total_clients=task.clients,\n                    )\n                    allocations[physical_client_index].append(ta)\n"
+             "                start_client_index += sub_task.clients\n")
+_CL_CALL = "                start_client_index = self._allocate(allocations, task, sub_task, start_client_index, clients_executing_completing_task, any_task_completes_parent)\n"
+_CL_HELPER = ("    def _allocate(self, allocations, task, sub_task, first, completing, any_completing):\n        rows = len(allocations)\n        for offset in range(sub_task.clients):\n"
+              "            logical = first + offset\n            row = logical % rows\n            if sub_task.completes_parent:\n                completing.append(row)\n"
+              "            elif sub_task.any_completes_parent:\n                any_completing.append(row)\n"
+              "            allocations[row].append(TaskAllocation(sub_task, offset, logical, task.clients))\n        return first + sub_task.clients\n\n")
+_ROW_OLD = "                    physical_client_index = client_index % max_clients\n"
+_ROW_CALL = "                    physical_client_index = _wrap(client_index, max_clients)\n"
+_AL_HEAD = "class Allocator:\n"
+_TP_OLD = ("        tasks = []\n        current_tasks = set()\n\n        allocs = self.allocations\n"
+           "        # assumption: the shape of allocs is rectangular (i.e. each client contains the same number of elements)\n" + _TP_LOOPS_OLD + _TP_TEST_OLD
+           + "                    # one entry per join point (except for the initial one), also if the schedule element before it is empty\n"
+           "                    tasks.append(current_tasks)\n                    current_tasks = set()\n\n        return tasks\n")
+_TP_COLUMNS = ("        tasks = []\n        current_tasks = set()\n        for column in list(zip(*self.allocations))[1:]:\n            if isinstance(column[0], JoinPoint):\n"
+               "                tasks.append(current_tasks)\n                current_tasks = set()\n            else:\n"
+               "                current_tasks.update(a.task for a in column if isinstance(a, TaskAllocation))\n        return tasks\n")
+_ADD_OLD = "                        client_allocations.add(client_id, self.allocations[client_id])\n"
+
+VARIANTS += [
+    [V("h3 keep (C02-b5): per-worker counts from a divmod helper, ids as list(range(...))", "keep", _D, _RR_OLD, _SPREAD_CALL),
+     V("", "keep", _D, _WA_HEAD, _SPREAD + _WA_HEAD),
+     V("", "keep", _D, _IDS_OLD, "            assignment[\"workers\"].append(list(range(client_idx, client_idx + client_count_for_worker)))\n"),
+     V("", "keep", _D, "    assert remaining_clients == 0\n", "    assert remaining_clients == 0\n    assert client_idx == client_count\n")],
+    [V("h3 break: divmod helper drops the remainder", "break", _D, _RR_OLD, _SPREAD_CALL, "O2.4"),
+     V("", "break", _D, _WA_HEAD, _SPREAD.replace("[per_bucket + 1] * leftover + [per_bucket] * (buckets - leftover)", "[per_bucket] * buckets") + _WA_HEAD)],
+    [V("h3 break: divmod helper piles the remainder on the first worker", "break", _D, _RR_OLD, _SPREAD_CALL, "O2.4"),
+     V("", "break", _D, _WA_HEAD, _SPREAD.replace("[per_bucket + 1] * leftover + [per_bucket] * (buckets - leftover)", "[per_bucket + leftover] + [per_bucket] * (buckets - 1)") + _WA_HEAD)],
+    [V("h3 break: divmod helper yields one worker too few when clients are left over", "break", _D, _RR_OLD, _SPREAD_CALL, "O2.4"),
+     V("", "break", _D, _WA_HEAD, _SPREAD.replace("(buckets - leftover)", "(buckets - leftover - 1)") + _WA_HEAD)],
+    [V("h3 keep: the counting loop moved into a helper function", "keep", _D, _RR_OLD, _SPREAD_CALL),
+     V("", "keep", _D, _WA_HEAD, _COUNT_LOOP + _WA_HEAD)],
+    [V("h3 keep: helper result iterated in place", "keep", _D, _RR_OLD + "\n        # assign client ids to workers\n        for client_count_for_worker in clients_per_worker:\n",
+       "        for client_count_for_worker in _spread_evenly(clients_on_this_host, host_config[\"cores\"]):\n"),
+     V("", "keep", _D, _WA_HEAD, _SPREAD + _WA_HEAD)],
+    V("h3 keep: round-robin slot through a local", "keep", _D, "            clients_per_worker[c % workers_on_this_host] += 1\n",
+      "            slot = c % workers_on_this_host\n            clients_per_worker[slot] += 1\n"),
+    V("h3 keep: ids handed out by a while loop (decided on the result of the function)", "keep", _D, _IDS_ADV, _IDS_WHILE),
+    V("h3 break: while loop hands out one id too many", "break", _D, _IDS_ADV, _IDS_WHILE.replace("client_idx < end", "client_idx <= end"), "O2.4"),
+    V("h3 keep: id counter advanced under a (vacuous) condition", "keep", _D, "            client_idx += client_count_for_worker\n",
+      "            if client_count_for_worker > 0:\n                client_idx += client_count_for_worker\n"),
+    V("h3 keep: remaining count recomputed from the id counter", "keep", _D, "        remaining_clients -= clients_on_this_host\n", "        remaining_clients = client_count - client_idx\n"),
+    V("h3 keep (C02-b8): TaskAllocation as a dataclass", "keep", _D, _TA_INIT_OLD, _TA_RECORD),
+    [V("h3 break: dataclass TaskAllocation, total clients left to a default", "break", _D, _TA_INIT_OLD, _TA_RECORD.replace("total_clients: int\n", "total_clients: int = 1\n"), "O2.3"),
+     V("", "break", _D, "                        total_clients=task.clients,\n", "")],
+    [V("h3 keep: client loop in a helper method that returns the next offset (decided on the matrices of representative schedules)", "keep", _D, _CL_BLOCK, _CL_CALL),
+     V("", "keep", _D, _JP_HEAD, _CL_HELPER + _JP_HEAD)],
+    [V("h3 break: helper method records the logical client index on the join point", "break", _D, _CL_BLOCK, _CL_CALL, "O2.7"),
+     V("", "break", _D, _JP_HEAD, _CL_HELPER.replace("                completing.append(row)\n", "                completing.append(logical)\n") + _JP_HEAD)],
+    [V("h3 break: helper method passes the element-wide index as task-local index", "break", _D, _CL_BLOCK, _CL_CALL, "O2.3"),
+     V("", "break", _D, _JP_HEAD, _CL_HELPER.replace("TaskAllocation(sub_task, offset, logical, task.clients)", "TaskAllocation(sub_task, logical, logical, task.clients)") + _JP_HEAD)],
+    [V("h3 break: helper method advances the offset by the element's clients", "break", _D, _CL_BLOCK, _CL_CALL, "O2."),
+     V("", "break", _D, _JP_HEAD, _CL_HELPER.replace("return first + sub_task.clients", "return first + task.clients") + _JP_HEAD)],
+    [V("h3 keep: row computed by a helper function without `%`", "keep", _D, _ROW_OLD, _ROW_CALL),
+     V("", "keep", _D, _AL_HEAD, "def _wrap(i, n):\n    return i - (i // n) * n\n\n\n" + _AL_HEAD)],
+    [V("h3 break: row helper wraps one row late", "break", _D, _ROW_OLD, _ROW_CALL, "O2.2"),
+     V("", "break", _D, _AL_HEAD, "def _wrap(i, n):\n    return i - (i // (n + 1)) * (n + 1)\n\n\n" + _AL_HEAD)],
+    V("h3 keep: per-step entries collected column by column (decided on the entries of representative schedules)", "keep", _D, _TP_OLD, _TP_COLUMNS),
+    V("h3 break: column-wise entries include the initial join point", "break", _D, _TP_OLD, _TP_COLUMNS.replace("list(zip(*self.allocations))[1:]", "list(zip(*self.allocations))"), "O2.1"),
+    V("h3 break: column-wise entries never reset", "break", _D, _TP_OLD, _TP_COLUMNS.replace("                tasks.append(current_tasks)\n                current_tasks = set()\n", "                tasks.append(set(current_tasks))\n"), "O2.1"),
+    V("h3 keep: collected task through a local", "keep", _D, "                    current_tasks.add(allocation.task)\n", "                    task = allocation.task\n                    current_tasks.add(task)\n"),
+    V("h3 keep: row count through a helper method", "keep", _D, _CLIENTS_OLD, "        return max(1, self._widest())\n\n    def _widest(self):\n        return max((task.clients for task in self.schedule), default=0)\n"),
+    V("h3 break: row count through a helper method, no floor for empty elements", "break", _D, _CLIENTS_OLD,
+      "        return self._widest()\n\n    def _widest(self):\n        return max((task.clients for task in self.schedule), default=1)\n", "O2.7"),
+    V("h3 keep: Parallel.clients sums in a helper method", "keep", _T, "            num_clients = 0\n            for task in self.tasks:\n                num_clients += task.clients\n            return num_clients\n",
+      "            return self._sub_task_clients()\n\n    def _sub_task_clients(self):\n        return sum(t.clients for t in self.tasks)\n"),
+    V("h3 keep: matrix row through a local, add() by keyword", "keep", _D, _ADD_OLD, "                        row = self.allocations[client_id]\n                        client_allocations.add(tasks=row, client_id=client_id)\n"),
+    V("h3 break: the worker's row instead of the client's", "break", _D, _ADD_OLD, "                        row = self.allocations[worker_id]\n                        client_allocations.add(client_id, row)\n", "O2.5"),
+    V("h3 keep: per-step entries initialised to an empty list in the constructor", "keep", _D, "        self.tasks_per_join_point = None\n", "        self.tasks_per_join_point = []\n"),
 ]
